@@ -32,6 +32,21 @@ class HAProxyProtocolWrapper(policies.ProtocolWrapper):
         super().__init__(factory, wrappedProtocol)
         self._proxyInfo: Optional[_info.ProxyInfo] = None
         self._parser: Union[V2Parser, V1Parser, None] = None
+        # Bytes received while the version of the header is still undecided.
+        self._undecided = b""
+
+    @staticmethod
+    def _mayBecomeHeader(data: bytes) -> bool:
+        """
+        Can C{data}, too short to select a parser, still be the beginning of
+        a version 1 or version 2 PROXY header?
+        """
+        if len(data) < len(V1Parser.PROXYSTR):
+            if V1Parser.PROXYSTR.startswith(data):
+                return True
+        if len(data) < 16 and data[:12] == V2Parser.PREFIX[: len(data)]:
+            return len(data) < 13 or ord(data[12:13]) & 0b11110000 == 0x20
+        return False
 
     def dataReceived(self, data: bytes) -> None:
         if self._proxyInfo is not None:
@@ -39,14 +54,21 @@ class HAProxyProtocolWrapper(policies.ProtocolWrapper):
 
         parser = self._parser
         if parser is None:
+            # The transport may deliver the header in pieces of any size:
+            # keep the bytes until the version can be decided.
+            data = self._undecided + data
+            self._undecided = b""
             if (
                 len(data) >= 16
                 and data[:12] == V2Parser.PREFIX
                 and ord(data[12:13]) & 0b11110000 == 0x20
             ):
                 self._parser = parser = V2Parser()
-            elif len(data) >= 8 and data[:5] == V1Parser.PROXYSTR:
+            elif data[:5] == V1Parser.PROXYSTR:
                 self._parser = parser = V1Parser()
+            elif self._mayBecomeHeader(data):
+                self._undecided = data
+                return None
             else:
                 self.loseConnection()
                 return None
